@@ -673,6 +673,147 @@ func extractMuxFacts(repo, root string) error {
 		f.add("remainOnlyFromPrims", false, "message_reader.go not parsed")
 	}
 
+	// ---- connPool.discover: every refresh awaits a promise of its own (Model/PoolDiscover.lean `chanOf fresh`): the
+	// `make(async, …)` whose variable travels in the connRequest and is awaited sits INSIDE the loop, in the block of the
+	// turn that sends and awaits it.
+	if fd := findFunc(tr, "connPool", "discover"); fd != nil {
+		ok, why := false, "no `x := make(async, …)` inside the refresh loop that is both sent in a connRequest and awaited there"
+		ast.Inspect(fd.Body, func(n ast.Node) bool {
+			loop, isFor := n.(*ast.ForStmt)
+			if !isFor {
+				return true
+			}
+			ast.Inspect(loop.Body, func(m ast.Node) bool {
+				blk, isBlk := m.(*ast.BlockStmt)
+				if !isBlk {
+					return true
+				}
+				for i, st := range blk.List {
+					as, isAs := st.(*ast.AssignStmt)
+					if !isAs || as.Tok != token.DEFINE || len(as.Lhs) != 1 || len(as.Rhs) != 1 {
+						continue
+					}
+					c, isCall := as.Rhs[0].(*ast.CallExpr)
+					if !isCall || selPath(c.Fun) != "make" || len(c.Args) < 1 || src(f.fset, c.Args[0]) != "async" {
+						continue
+					}
+					v := src(f.fset, as.Lhs[0])
+					sent, awaited := false, false
+					for _, later := range blk.List[i+1:] {
+						ast.Inspect(later, func(x ast.Node) bool {
+							switch y := x.(type) {
+							case *ast.KeyValueExpr:
+								if src(f.fset, y.Key) == "res" && src(f.fset, y.Value) == v {
+									sent = true
+								}
+							case *ast.CallExpr:
+								if selPath(y.Fun) == v+".await" {
+									awaited = true
+								}
+							}
+							return true
+						})
+					}
+					if sent && awaited {
+						ok, why = true, "(*connPool).discover: `"+v+" := make(async, 1)` in the loop turn that sends it in the connRequest and awaits it"
+					}
+				}
+				return true
+			})
+			return true
+		})
+		// and no promise of the loop is created outside it
+		ast.Inspect(fd.Body, func(n ast.Node) bool {
+			if _, isFor := n.(*ast.ForStmt); isFor {
+				return false
+			}
+			if c, isCall := n.(*ast.CallExpr); isCall && selPath(c.Fun) == "make" && len(c.Args) >= 1 && src(f.fset, c.Args[0]) == "async" {
+				ok, why = false, "(*connPool).discover creates a promise outside the refresh loop"
+			}
+			return true
+		})
+		f.add("discoverPromisePerRefresh", ok, why)
+	} else {
+		f.add("discoverPromisePerRefresh", false, "(*connPool).discover not found")
+	}
+
+	// ---- read.go / discard.go: every primitive charges to its byte budget what it takes off the reader.
+	// For each function `f(r *bufio.Reader, sz int, …)`: every call r.Discard(…) / io.ReadFull(r, …) / r.Read(…) binds its
+	// byte count to a variable, and that variable is subtracted from the budget afterwards (`sz -= n`, `sz = sz - n`, or
+	// `sz - n` in a later expression, e.g. the returned remainder).  Model/VarIntRead.lean (`readVarIntW_adv`) and
+	// Base/Reader's `conserves_*` lemmas are about exactly this bookkeeping; the refill branch of readVarInt is where
+	// seed C06-m7 dropped it.
+	{
+		bad := []string{}
+		sites := 0
+		for _, file := range []*ast.File{f.parse(repo, "read.go"), f.parse(repo, "discard.go")} {
+			if file == nil {
+				continue
+			}
+			for _, d := range file.Decls {
+				fd, ok := d.(*ast.FuncDecl)
+				if !ok || fd.Body == nil || fd.Recv != nil || fd.Type.Params == nil || len(fd.Type.Params.List) < 2 {
+					continue
+				}
+				ps := paramNames(fd.Type)
+				if len(ps) < 2 || !strings.Contains(src(f.fset, fd.Type.Params.List[0].Type), "bufio.Reader") {
+					continue
+				}
+				rd, budget := ps[0], ps[1]
+				ast.Inspect(fd.Body, func(n ast.Node) bool {
+					if _, isLit := n.(*ast.FuncLit); isLit {
+						return false // callbacks have their own (r, sz): they are separate functions for this purpose
+					}
+					c, isCall := n.(*ast.CallExpr)
+					if !isCall {
+						return true
+					}
+					p := selPath(c.Fun)
+					consumes := p == rd+".Discard" || p == rd+".Read" || (p == "io.ReadFull" && len(c.Args) >= 1 && src(f.fset, c.Args[0]) == rd)
+					if !consumes {
+						return true
+					}
+					sites++
+					// the statement that binds the count
+					countVar := ""
+					var at token.Pos
+					ast.Inspect(fd.Body, func(m ast.Node) bool {
+						if as, ok := m.(*ast.AssignStmt); ok && len(as.Rhs) == 1 && as.Rhs[0] == ast.Expr(c) && len(as.Lhs) >= 1 {
+							if id, ok := as.Lhs[0].(*ast.Ident); ok && id.Name != "_" {
+								countVar, at = id.Name, as.End()
+							}
+						}
+						return true
+					})
+					charged := false
+					if countVar != "" {
+						ast.Inspect(fd.Body, func(m ast.Node) bool {
+							if m == nil || m.Pos() < at {
+								return true
+							}
+							switch x := m.(type) {
+							case *ast.AssignStmt:
+								if x.Tok == token.SUB_ASSIGN && len(x.Lhs) == 1 && src(f.fset, x.Lhs[0]) == budget && src(f.fset, x.Rhs[0]) == countVar {
+									charged = true
+								}
+							case *ast.BinaryExpr:
+								if x.Op == token.SUB && src(f.fset, x.X) == budget && src(f.fset, x.Y) == countVar {
+									charged = true
+								}
+							}
+							return true
+						})
+					}
+					if !charged {
+						bad = append(bad, fd.Name.Name+": "+src(f.fset, c))
+					}
+					return true
+				})
+			}
+		}
+		f.add("primitivesChargeWhatTheyConsume", sites >= 4 && len(bad) == 0, fmt.Sprintf("read.go / discard.go: %d consuming calls; not charged to the budget: %v", sites, bad))
+	}
+
 	// ---- batch.go: the key/value callbacks touch the reader they are given only through readNewBytes / discardN / io.ReadFull
 	if batch != nil {
 		n, bad := 0, []string{}
